@@ -41,8 +41,8 @@ contract(Contract(
     at_call={"wrap_paragraph": {
         # property: "no wrapped line is longer than the width ... every line is maximal" for the public wrapping
         # functions: the paragraph wrapper must get the configured width.  Known finding in the indenting modes.
-        "width_once": Clause("arg_width == old('width')", finding="C05-fill_text-indent-twice"),
-        "width_once.residual": Clause("implies(wrap_subsequent == '' and extra_indent == '', arg_width == old('width'))"),
+        "width_once": Clause("arg_width == old('width')", finding="C05-fill_text-indent-twice", props=["C05"]),
+        "width_once.residual": Clause("implies(wrap_subsequent == '' and extra_indent == '', arg_width == old('width'))", props=["C05"]),
     }},
     loops={0: Loop(inv={"len": "len(wrapped_paragraphs) == _i",
                         "paras": "all(wrapped_paragraphs[k] == para(k) for k in range(_i))",
